@@ -95,6 +95,10 @@ def impl_replay(job):
                         g1 = sim.py_simulate(itf, tp).py_get_result()
                         brandom.py_verif_script(draws + [0.5] * 4)
                         g2 = sim.py_simulate(itf, tp).py_get_result()
+                        # ... and a fourth run with OTHER draws through the same simulator object: results are values, a later
+                        # run does not alter the rows an earlier run returned
+                        brandom.py_verif_script([0.37, 0.81] * (len(draws) + 40))
+                        sim.py_simulate(itf, tp)
                         brandom.py_verif_script(None)
                         for tag, g in (("second", g1), ("third (same simulator object)", g2)):
                             rows2 = [[float(g[i, c]) for c in cols] for i in range(g.shape[0])]
